@@ -343,7 +343,7 @@ func rootOf(t *Term) *Term {
 func (p *Prog) GenericReps(name string) []*ssa.Function {
 	var out []*ssa.Function
 	for _, fn := range p.Funcs {
-		if fn.Parent() == nil && genericName(fn.String()) == name {
+		if fn.Parent() == nil && genericName(fnName(fn)) == name {
 			out = append(out, fn)
 			break
 		}
@@ -361,7 +361,7 @@ func funcsCalling(p *Prog, pkgPath string, pred func(name string) bool) []*ssa.F
 		if pk == nil || pk.Pkg.Path() != pkgPath || fn.Parent() != nil {
 			continue
 		}
-		gn := genericName(fn.String())
+		gn := genericName(fnName(fn))
 		if seen[gn] {
 			continue
 		}
